@@ -446,7 +446,16 @@ class HierarchicalMachine(Machine):
             the added model.
         """
         models = [self if mod is self.self_literal else mod for mod in listify(model)]
+        known = list(self.models)
         super(HierarchicalMachine, self).add_model(models, initial=initial)
+        # models which are already registered keep their state: adding them again has no effect
+        new_models = []
+        for mod in models:
+            if mod not in known and mod not in new_models:
+                new_models.append(mod)
+        models = new_models
+        if not models:
+            return
         initial_name = getattr(models[0], self.model_attribute)
         if hasattr(initial_name, 'name'):
             initial_name = initial_name.name
